@@ -1,7 +1,16 @@
 import Verif.Properties.C01
 import Verif.Properties.C02
 import Verif.Properties.C03
--- C04 (Flatten succeeds on W and the result satisfies C01–C03) rests on the validators of C01–C03
+import Verif.Properties.C04
+-- C04 (Flatten succeeds on W and the result satisfies C01–C03): the rewrite primitives accept every analyzer key
+-- (C04.*), and the validators of C01–C03 say what acceptance of a result means
+#print axioms C04.keys_walk
+#print axioms C04.updateRef_succeeds
+#print axioms C04.updateRefWithSchema_succeeds
+#print axioms C04.rewriteSchemaToRef_succeeds
+#print axioms C04.analyzer_keys_rewritable
+#print axioms C04.rewriteSchemaToRef_under_not
+#print axioms C04.keyTokens_key
 #print axioms C01.cert_sound
 #print axioms C02.canonical_sound
 #print axioms C03.uniqify_fresh
